@@ -32,8 +32,10 @@ def shapes():
     store = StateShape(bs.BlockStore, lock=('const', ('lock',)),
                        write_buffer=('mutable', 'list', LIST(CLS('Block'))),
                        disk=LIST(CLS('Block')))          # ghost field: the blocks committed to the database
-    ghost = StateShape(GhostState, relayed_blocks=LIST(CLS('Block')), relayed_transactions=LIST(CLS('Transaction')), now=INT)
-    return dict(disk=disk, local_peer=local_peer, chain_manager=chain_manager, network_manager=network_manager,
+    ghost = StateShape(GhostState, relayed_blocks=LIST(CLS('Block')), relayed_transactions=LIST(CLS('Transaction')), now=INT,
+                       delivered=LIST(BYTES))     # payloads handed to MessageReceiver.handle_message_data, in order
+    receiver = StateShape(rp.MessageReceiver, peer=('const', ('opaque',)), buffer=BYTES, magic_read=BOOL, len=OPT(INT))
+    return dict(receiver=receiver, disk=disk, local_peer=local_peer, chain_manager=chain_manager, network_manager=network_manager,
                 full_local_peer=full_local_peer, remote_peer=remote_peer, header=header, data_block=data_block,
                 data_tx=data_tx, store=store, ghost=ghost)
 
